@@ -666,6 +666,13 @@ def run(tier, logdir):
                         "bounds": "every (pos, Option<len>) in u64 x Option<u64>; getters uninterpreted", "wall_s": round(tsol, 2), "solver": {"z3+cvc5": "QF_UFLIRA equivalence"}})
         if extra:
             assumptions.append("keys present in format_state but not in the documented list (not judged): " + ", ".join(sorted(extra)))
+        # vacuity witness: the equivalence query must be able to tell two different values apart
+        wd = set()
+        _, a = smt_of(("UNWRAP_OR", ("LEN",), ("K", 0)), wd)
+        _, b = smt_of(LENP, wd)
+        rw = M.solve(sorted(wd), ["(assert (and (<= 0 pos) (<= 0 len_val)))", "(assert (not (= %s %s)))" % (a, b)], get_values=["pos", "len_some"], timeout=30)
+        queries.append({"name": "witness: `len or 0` is told apart from `len or position`", "verdict": "PASS" if rw["verdict"] == "sat" else "BROKEN",
+                        "why": "" if rw["verdict"] == "sat" else "solver verdict %s" % rw["verdict"], "wall_s": 0})
         queries += tracker_rules(mir, root)
         enc = ["style::ProgressStyle::format_state (key dispatch arms, data flow to the formatter)"]
     except (M.Unsupported, KeyError, IndexError, AttributeError, ValueError) as e:
